@@ -6,25 +6,33 @@ ID = "C05"
 CLAIMED = True
 MODEL_GROUP = "browser"
 THEOREM_FILE = "Props/C05.v"
-LEVEL_TEXT = ("Coq theorems. History level, in the standard shape for known findings: C05_removed_only_when_true_partial - "
-              "for every history in which time does not run backwards and that is outside the executable classes "
-              "known_ptr_variant and known_srv_targets (and has no PTR with the root name as owner/target), the checker "
-              "viol_C05 run on the model's trace never reports F05_alive, i.e. the model never emits ServiceRemoved while "
-              "PTR, SRV and address of the SRV's host have more than 1 s left at every snapshot of the iteration (proof: C03 "
-              "cache invariant + spec cache = model cache carried through every step); one vm_compute witness per known "
-              "class (PTR variant, second SRV target, expiry hidden by an expiring PTR, stop_browse of a second PTR name). "
-              "C05_no_resolved_again_partial - same quantifier plus the well-formedness condition fresh_channels (every browse "
-              "call uses a new, larger channel number; the driver checks it on every case): viol_C05 never reports F05_again, "
-              "i.e. no ServiceResolved of an instance on a channel after its ServiceRemoved there unless a record of the "
-              "instance or of its host was delivered in between (invariant DI tying the checker's dead list to the model "
-              "cache: a dead instance is not strongly alive or a relevant delivery is logged; liveness only decreases when "
-              "the cache shrinks, as time goes by, and under deliveries that do not concern the instance; what is reported "
-              "resolved is strongly alive). Cache level, all states: eviction "
-              "removes exactly the expired records; expired PTRs and SRV expiry are reported under every PTR name; reports "
-              "only when true; loss of the last address reported under every browsed name; goodbye = exactly +1000 ms; "
-              "verify shortens to now + timeout and an answer restores. Timeliness (F05_dead) and the wake-up clause "
-              "(F05_wake) are monitor-checked on every generated history, not theorems. Model tied "
-              "to the Rust daemon by the K6 simulation")
+LEVEL_TEXT = ("Coq theorems. History level, in the standard shape for known findings (for every history in which time does not "
+              "run backwards, whatever the wake-ups; the extracted checker viol_C05 run on the model's trace): "
+              "C05_removed_only_when_true_partial - outside the executable classes known_ptr_variant and known_srv_targets (and "
+              "with no PTR with the root name as owner/target) never F05_alive, i.e. no ServiceRemoved while PTR, SRV and "
+              "address of the SRV's host have more than 1 s left at every snapshot of the iteration. "
+              "C05_no_resolved_again_partial - same classes plus the well-formedness condition fresh_channels (every browse "
+              "call uses a new, larger channel number; the driver checks it on every case): never F05_again, i.e. no "
+              "ServiceResolved after ServiceRemoved of the instance on that channel unless a record of the instance or of its "
+              "host was delivered in between; inside known_srv_targets this is REFUTED (round 6, "
+              "C05_no_resolved_again_refuted_in_srv_targets, confirmed on the daemon). "
+              "C05_removed_on_time_partial (round 6, timeliness) - outside timely_class = the classes above plus "
+              "known_stop_second_name (C05-stop-browse-drops-shared-records) and known_removal_hidden "
+              "(C05-expiry-hidden-by-expiring-ptr as a class of histories: at some call of resolve_updated_instances an updated "
+              "instance that is in `resolved` cannot be resolved while a browsed PTR to it is in its last second) never F05_dead: "
+              "at the end of EVERY iteration every instance that is up on the current channel of its type has PTR, SRV and an "
+              "address of the SRV's host unexpired, so in the first iteration whose now is at or after the instant a "
+              "goodbye's second, the TTL of the PTR / last SRV / last address or a verify deadline runs out, the "
+              "ServiceRemoved is emitted (whether the daemon is woken then is C12: Props/C12Cache.v). Invariant UI: every up "
+              "entry has PTR, SRV and address records present in the model cache and its instance in the model's `resolved` "
+              "set; deliveries, verify and refresh keep every record, stop_browse keeps those of instances it does not point "
+              "to, the evictions report what they take, afterwards every record is unexpired. One vm_compute witness per "
+              "class (PTR variant, second SRV target, removal hidden by an expiring PTR, stop_browse of a second PTR name). "
+              "Cache level, all states: eviction removes exactly the expired records; expired PTRs and SRV expiry are "
+              "reported under every PTR name; reports only when true; loss of the last address reported under every browsed "
+              "name; goodbye = exactly +1000 ms; verify shortens to now + timeout and an answer restores. The wake-up clause "
+              "(F05_wake) is monitor-checked on every generated history, not a theorem here. Model tied to the Rust daemon by "
+              "the K6 simulation")
 TECHNIQUE = ("machine-checked proof in Coq (eviction / goodbye / verify specifications, refutation witnesses) + "
              "model/implementation correspondence on the simulated daemon + history-level monitor with virtual timestamps")
 LEVELS = ("K6 sim: one real daemon thread in the simulated world, timer-exact runs (run_until jumps to the wake-up the "
@@ -38,17 +46,17 @@ RULE = ("announcement / goodbye / silence histories of 1-3 instances and respond
         "the two names (known finding) with or without the records coming back, PTR delivered "
         "with and without cache-flush bit; non-trivial = at least one event")
 TRUSTED = bc.TRUSTED_COMMON
-PARTIAL = ("Of viol_C05's failure kinds F05_alive and F05_again (the two safety clauses) are excluded by history-level "
-           "theorems, for histories outside known_ptr_variant / known_srv_targets (inside these classes F05_again is neither "
-           "proved nor refuted; no generated history of them fails it). Not proved over histories: F05_dead (removal on "
-           "time: needs an invariant tying the checker's 'up' list to the model's resolved set and the order of events "
-           "inside an iteration; classes to exclude: expiry hidden by an expiring PTR, and stop_browse of a second PTR name "
-           "of an instance - decided in round 5 to be a finding, C05-stop-browse-drops-shared-records: the daemon drops the "
-           "instance's SRV/TXT/address records, tells nobody, and a silent departure is then reported at the PTR's TTL "
-           "instead of the SRV's; confirmed on the daemon), F05_wake (the model does not compute timers). They are "
-           "checked by the monitor on every generated history of model and implementation. 'Live' means more than 1 s of "
-           "TTL left (expires_soon convention), so a ServiceRemoved up to 1 s before the true expiry is accepted. Exact "
-           "times are statements about timer-exact schedules. Interface removal (C18) is outside the model.")
+PARTIAL = ("Of viol_C05's failure kinds F05_alive, F05_again and F05_dead are excluded by history-level theorems outside the "
+           "executable classes named in LEVEL_TEXT; F05_wake is not (the browser model does not compute timers: requested "
+           "wake-ups are an input of the checker; the cache-layer timer theorem is C12's). Inside the classes: F05_again is "
+           "refuted inside known_srv_targets and open inside known_ptr_variant; F05_dead is refuted inside known_removal_hidden "
+           "and known_stop_second_name (witnesses) and open inside known_ptr_variant / known_srv_targets. The class "
+           "known_removal_hidden is evaluated along the model's run (it needs the `resolved` set and the `updated` list of "
+           "each resolve_updated_instances call); it is wider than the old monitor flag 'every PTR in its last second at "
+           "the failure': round 6 found, and confirmed on the daemon, the variant in which the skipped PTR is refreshed "
+           "afterwards and its browser is never told about the later expiry (corpus hidden-then-refreshed). 'Live' means more "
+           "than 1 s of TTL left (expires_soon convention), so a ServiceRemoved up to 1 s before the true expiry is accepted. "
+           "Interface removal (C18) is outside the model.")
 
 project = bc.project_line
 model_input = bc.model_input_line
